@@ -345,7 +345,7 @@ func reValid(s string) bool {
 
 // tokenizer of parser.go (a copy of its regular expression; the correspondence compares the parameters the
 // real loader produced with what the model derives from these tokens, so a drift of the copy shows up).
-var paramRe = regexp.MustCompile(`(?:([^\s=]+)=)?("(?:\\"|[^"])*"|` + "`(" + `?:\\"|[^"]*)` + "`" + `|[^"\s]+)`)
+var paramRe = regexp.MustCompile(`(?:([^\s="]+)=)?("(?:\\"|[^"])*"|` + "`(" + `?:\\"|[^"]*)` + "`" + `|[^"\s]+)`)
 
 func paramTokens(s string) [][2]string {
 	out := [][2]string{}
